@@ -167,3 +167,22 @@ def inp_record(ot, st, lm, c):
 def inp_to_json(inp):
     return {"ot": list(inp["ot"]), "st": list(inp["st"]), "lm": list(inp["lm"]),
             "c": {k: inp["c"][k] for k in COST_KEYS}}
+
+
+def malformed(trees):
+    """Why the returned objects are not self-contained trees (a node whose
+    parent link disagrees with the child lists, or a node shared by two
+    results), None when they are."""
+    seen = {}
+    for k, tree in enumerate(trees):
+        if tree is None:
+            continue
+        if tree.up is not None:
+            return f"result {k} is attached below another node"
+        for node in tree.traverse():
+            if id(node) in seen and seen[id(node)] != k:
+                return f"results {seen[id(node)]} and {k} share a node object"
+            seen[id(node)] = k
+            if any(child.up is not node for child in node.children):
+                return f"result {k}: a child's parent link does not point to its parent"
+    return None
